@@ -60,6 +60,40 @@ pub enum RouterError {
     },
 }
 
+/// Pick, among the `(path, method)` rules of one host leaf, the rule that serves
+/// `(path, method)` following the documented precedence (doc/configure.md, "Path
+/// matching precedence within a frontend"): an `EQUALS` path beats a `REGEX` path
+/// beats the longest matching `PREFIX`; on the same path rank a method-specific rule
+/// beats a method-agnostic one. The choice is a maximum over a total key, so it does
+/// not depend on the order in which the frontends were added (the first rule wins
+/// only between rules of identical rank, e.g. two matching regexes, which the
+/// documentation leaves undefined).
+fn select_tree_rule<'a>(
+    path_rules: &'a [(PathRule, MethodRule, Route)],
+    path: &[u8],
+    method: &Method,
+) -> Option<(&'a PathRule, &'a Route)> {
+    // (path kind rank, matched length, method rank: 1 = method-specific, 0 = any method)
+    let mut best: Option<((u8, usize, u8), &PathRule, &Route)> = None;
+    for (rule, method_rule, route) in path_rules {
+        let method_rank = match method_rule.matches(method) {
+            MethodRuleResult::Equals => 1,
+            MethodRuleResult::All => 0,
+            MethodRuleResult::None => continue,
+        };
+        let key = match rule.matches(path) {
+            PathRuleResult::Equals => (2, path.len(), method_rank),
+            PathRuleResult::Regex => (1, path.len(), method_rank),
+            PathRuleResult::Prefix(size) => (0, size, method_rank),
+            PathRuleResult::None => continue,
+        };
+        if best.is_none_or(|(best_key, _, _)| key > best_key) {
+            best = Some((key, rule, route));
+        }
+    }
+    best.map(|(_, rule, route)| (rule, route))
+}
+
 pub struct Router {
     pre: Vec<(DomainRule, PathRule, MethodRule, Route)>,
     pub tree: TrieNode<Vec<(PathRule, MethodRule, Route)>>,
@@ -116,59 +150,7 @@ impl Router {
         if let Some(((_, path_rules), trie_matches)) =
             self.tree.lookup_with_path(hostname_b, true, trie_path)
         {
-            let mut prefix_length = 0;
-            let mut matched: Option<(&PathRule, &Route)> = None;
-
-            for (rule, method_rule, route) in path_rules {
-                match rule.matches(path_b) {
-                    PathRuleResult::Regex | PathRuleResult::Equals => {
-                        match method_rule.matches(method) {
-                            MethodRuleResult::Equals => {
-                                return Ok(RouteResult::new_with_trie(
-                                    hostname_b,
-                                    trie_matches,
-                                    path_b,
-                                    rule,
-                                    route,
-                                ));
-                            }
-                            MethodRuleResult::All => {
-                                prefix_length = path_b.len();
-                                matched = Some((rule, route));
-                            }
-                            MethodRuleResult::None => {}
-                        }
-                    }
-                    PathRuleResult::Prefix(size) => {
-                        if size >= prefix_length {
-                            match method_rule.matches(method) {
-                                // FIXME: the rule order will be important here
-                                MethodRuleResult::Equals => {
-                                    // Longest-prefix wins: the selected
-                                    // length is monotonically non-decreasing
-                                    // across the candidate scan.
-                                    debug_assert!(
-                                        size >= prefix_length,
-                                        "longest-prefix selection must never shrink the match length",
-                                    );
-                                    prefix_length = size;
-                                    matched = Some((rule, route));
-                                }
-                                MethodRuleResult::All => {
-                                    debug_assert!(
-                                        size >= prefix_length,
-                                        "longest-prefix selection must never shrink the match length",
-                                    );
-                                    prefix_length = size;
-                                    matched = Some((rule, route));
-                                }
-                                MethodRuleResult::None => {}
-                            }
-                        }
-                    }
-                    PathRuleResult::None => {}
-                }
-            }
+            let matched = select_tree_rule(path_rules, path_b, method);
 
             if let Some((path_rule, route)) = matched {
                 return Ok(RouteResult::new_with_trie(
